@@ -200,6 +200,7 @@ PROPS = {
             {"name": "bus", "run": "TestBusHistories", "kind": "rapid", "checks": {Q: 8000, T: 50000}, "shards": {Q: 4, T: 16}},
             {"name": "corefirst", "run": "TestCoreFirst", "kind": "rapid", "checks": {Q: 4000, T: 30000}, "shards": {Q: 4, T: 16}},
             {"name": "oracle", "run": "TestOracle", "kind": "plain"},
+            {"name": "coreconcurrent", "run": "TestCoreFirstConcurrent", "kind": "plain", "shards": {Q: 2, T: 8}, "env": {"VERIF_ROUNDS": {Q: 300, T: 3000}}},
         ],
     },
     "C20": {
@@ -235,6 +236,7 @@ PROPS = {
                         "pending writes are authorised when they arrive; the binding may change afterwards"],
         "runs": [
             {"name": "matrix", "run": "TestApprovalMatrix", "kind": "rapid", "checks": {Q: 1600, T: 16000}, "shards": {Q: 8, T: 16}, "shrinktime": "15s"},
+            {"name": "staggered", "run": "TestStaggeredWrites", "kind": "rapid", "checks": {Q: 480, T: 12000}, "shards": {Q: 8, T: 16}, "shrinktime": "15s"},
             {"name": "window", "run": "TestApprovalVsTimeout", "kind": "plain"},
         ],
     },
